@@ -89,7 +89,17 @@ def monitorLine (l : Line) : Option String :=
   else
     let t := parseTokenX l
     let obs : Option Claims := if str l "obs" == "ok" then some (parseClaims l "o.") else none
-    C02.monitor (list l "v.algs") (keySetFor l t) t obs
+    match C02.monitor (list l "v.algs") (keySetFor l t) t obs with
+    | none => none
+    | some c =>
+      -- part 8 (a remote key set fed from a JWKS DOCUMENT, `doc.*`): `ks.` is the harness's own reading of the entries that are valid
+      -- JWKs; `ksall.` the same reading of ALL entries that declare key material, valid JWK or not.  The statement does not say which of
+      -- the two "the published key set" is: a belief is flagged only if NEITHER reading justifies it.
+      if has l "ksall.n" then
+        match C02.monitor (list l "v.algs") (parseKeySet l "ksall.") t obs with
+        | none => none
+        | some _ => some c
+      else some c
 
 def stepMon (l : Line) : String :=
   s!"case={str l "case"} model=- observed={obsString l} monitor={showMon (monitorLine l)} agree=1"
